@@ -283,3 +283,86 @@ Proof.
   rewrite <- E in Fall. inversion Fall as [|? ? _ Fall']. inversion Fall' as [|? ? H120 _].
   destruct H120 as [(dv & Hdv & Hlt)|Hsp]; [cbn in Hdv; inversion Hdv; subst dv; lia|discriminate Hsp].
 Qed.
+
+(* ------------------------------------------------------------------ completeness: every numeral is accepted *)
+Lemma valid_digit_not_space b c : valid_digit b c -> isspace c = false.
+Proof.
+  intros (x & Hx & _). unfold digit_of in Hx. unfold isspace.
+  destruct ((48 <=? c) && (c <=? 57)) eqn:E1; [lia|]. destruct ((97 <=? c) && (c <=? 122)) eqn:E2; [lia|].
+  destruct ((65 <=? c) && (c <=? 90)) eqn:E3; [lia|discriminate].
+Qed.
+
+Lemma skip_spaces_app sp r : Forall (fun c => isspace c = true) sp -> skip_spaces (sp ++ r) = skip_spaces r.
+Proof. induction 1 as [|c l Hc _ IH]; [reflexivity|]. cbn [app skip_spaces]. rewrite Hc. exact IH. Qed.
+
+Lemma skip_spaces_all sp : Forall (fun c => isspace c = true) sp -> skip_spaces sp = [].
+Proof. intros H. rewrite <- (app_nil_r sp). rewrite skip_spaces_app by exact H. reflexivity. Qed.
+
+Lemma str2int_digits_run b ds : Forall (valid_digit b) ds -> forall m sp2,
+  match sp2 with c :: _ => isspace c = true | [] => True end ->
+  str2int_digits b (u64 m) (ds ++ sp2) = (u64 (digits_value b m (map digit_val ds)), sp2).
+Proof.
+  induction 1 as [|c l (x & Hx & Hlt) _ IH]; intros m sp2 Hs; cbn [app map digits_value].
+  - destruct sp2 as [|c r]; [reflexivity|]. cbn [str2int_digits].
+    destruct (digit_of c) as [x|] eqn:E; [|reflexivity].
+    exfalso. assert (Hv : valid_digit (x + 1) c) by (exists x; split; [exact E|lia]). apply valid_digit_not_space in Hv. congruence.
+  - cbn [str2int_digits]. rewrite Hx. destruct (Z.ltb_spec x b); [|lia]. rewrite u64_step_gen.
+    unfold digit_val at 1. rewrite Hx. apply IH. exact Hs.
+Qed.
+
+Lemma str2int_complete base s v : numeral_shape base s v -> nl_str2int base s = Some v.
+Proof.
+  intros (sp1 & sgn & pre & ds & sp2 & b & Es & F1 & F2 & Hsg & Hpre & Hb & Hne & Fd & Hv). cbv zeta in Hv.
+  destruct ds as [|d0 ds']; [contradiction|]. inversion Fd as [|? ? Hd0 Fd']. subst.
+  pose proof (valid_digit_not_space _ _ Hd0) as Hsp0. destruct Hd0 as (x0 & Hx0 & Hlt0).
+  (* the body after blanks and sign *)
+  set (body := pre ++ (d0 :: ds') ++ sp2).
+  assert (Hbody0 : exists c r, body = c :: r /\ isspace c = false /\ c <> 45 /\ c <> 43).
+  { destruct Hpre as [[-> _]|(_ & y & -> & _)]; subst body; cbn [app].
+    - exists d0, (ds' ++ sp2). split; [reflexivity|]. split; [exact Hsp0|]. split; intros ->; cbn in Hx0; discriminate.
+    - exists 48, (y :: (d0 :: ds') ++ sp2). split; [reflexivity|]. split; [reflexivity|]. split; discriminate. }
+  destruct Hbody0 as (c0 & r0 & Eb & Hc0 & H45 & H43).
+  unfold nl_str2int.
+  assert (Hnil : sp1 ++ sgn ++ body <> []).
+  { rewrite Eb. destruct sp1; [destruct sgn; discriminate|discriminate]. }
+  destruct (sp1 ++ sgn ++ body) as [|z zs] eqn:Ez; [contradiction|]. rewrite <- Ez. clear Ez z zs Hnil.
+  rewrite skip_spaces_app by exact F1.
+  assert (Hskip : skip_spaces (sgn ++ body) = sgn ++ body).
+  { destruct Hsg as [-> | [-> | ->]]; cbn [app]; [rewrite Eb; cbn [skip_spaces]; rewrite Hc0; reflexivity|reflexivity|reflexivity]. }
+  rewrite Hskip.
+  assert (Hsel : exists c r, sgn ++ body = c :: r /\
+            (if (c =? 45) || (c =? 43) then r else c :: r) = body /\ (c =? 45) = match sgn with [45] => true | _ => false end).
+  { destruct Hsg as [-> | [-> | ->]]; cbn [app].
+    - rewrite Eb. exists c0, r0. split; [reflexivity|]. destruct (Z.eqb_spec c0 45); [contradiction|]. destruct (Z.eqb_spec c0 43); [contradiction|].
+      split; reflexivity.
+    - exists 45, body. repeat split.
+    - exists 43, body. repeat split. }
+  destruct Hsel as (c & r & Ecr & Ebd & Eneg). rewrite Ecr. rewrite Ebd. rewrite Eneg.
+  (* base detection *)
+  assert (Hdet : (if base =? 0
+                  then match body with
+                       | b0 :: bc :: r2 => if negb (b0 =? 48) then (10, body)
+                                           else if (bc =? 98) || (bc =? 66) then (2, r2) else if (bc =? 120) || (bc =? 88) then (16, r2) else (10, body)
+                       | _ => (10, body)
+                       end
+                  else (base, body)) = (b, (d0 :: ds') ++ sp2)).
+  { destruct Hpre as [[-> Hb0]|(Hb0 & y & -> & Hy)]; subst body; cbn [app] in *.
+    - destruct (Z.eqb_spec base 0) as [E0|N0]; [|subst b; reflexivity]. subst b.
+      destruct (ds' ++ sp2) as [|bc r2] eqn:Er; [reflexivity|].
+      destruct (Z.eqb_spec d0 48) as [->|]; cbn [negb]; [|reflexivity].
+      (* the character after a leading 0 is a decimal digit or a blank: never b, B, x, X *)
+      assert (Hbc : (bc =? 98) || (bc =? 66) = false /\ (bc =? 120) || (bc =? 88) = false).
+      { destruct ds' as [|d1 ds'']; cbn [app] in Er.
+        - subst sp2. inversion F2 as [|? ? Hs _]. subst. unfold isspace in Hs. lia.
+        - inversion Er. subst. inversion Fd' as [|? ? (x1 & Hx1 & Hl1) _]. subst. unfold digit_of in Hx1.
+          destruct ((48 <=? bc) && (bc <=? 57)) eqn:E1; [lia|]. destruct ((97 <=? bc) && (bc <=? 122)) eqn:E2; [inversion Hx1; lia|].
+          destruct ((65 <=? bc) && (bc <=? 90)) eqn:E3; [inversion Hx1; lia|discriminate]. }
+      destruct Hbc as [-> ->]. reflexivity.
+    - subst base. cbn [Z.eqb negb]. destruct Hy as [[Hy ->]|[Hy ->]]; destruct Hy as [-> | ->]; reflexivity. }
+  rewrite Hdet.
+  destruct (Z.leb_spec 2 b); [|lia]. destruct (Z.leb_spec b 36); [|lia]. cbn [andb negb].
+  cbn [app first_is_digit]. rewrite Hx0. destruct (Z.ltb_spec x0 b); [|lia]. cbn [negb].
+  change 0 with (u64 0). change (d0 :: ds' ++ sp2) with ((d0 :: ds') ++ sp2).
+  rewrite (str2int_digits_run b (d0 :: ds') Fd 0 sp2) by (destruct sp2 as [|y t]; [exact I|inversion F2; assumption]).
+  rewrite (skip_spaces_all sp2 F2). reflexivity.
+Qed.
